@@ -28,6 +28,9 @@ SOLVE_TOKEN = Tag("result-of-solver.solve()")
 ANCHORED = ["sudoku", "slitherlink", "masyu", "yajilin", "nurikabe", "heyawake", "akari", "norinori", "lits", "star_battle",
             "fillomino", "nurimisaki", "yinyang", "creek", "gokigen", "aquarium", "building", "doppelblock", "putteria",
             "simpleloop", "geradeweg", "compass", "fivecells", "view", "castle_wall", "shakashaka"]
+# solver modules that the property's quantifier ("every puzzle module in cspuz.puzzle") covers although its anchor list does not
+# name them: evaluated by the same rules; a missing one is reported as information, not as a vanished anchor
+EXTRA = ["firefly", "magnets", "nanro", "nurimaze", "slalom"]
 BOARDS = [(2, 3), (3, 2), (3, 4), (4, 3)]
 
 
@@ -118,6 +121,25 @@ def fixtures(name: str, h: int, w: int) -> List[Tuple[tuple, dict]]:
                   grid(h, w, None, corners(h, w, [None, None, True, False, True, None]))), {})]
     if name == "shakashaka":
         return [((h, w, grid(h, w, None, corners(h, w, [0, -1, 1, 2, 0, -1]))), {})]
+    if name == "firefly":
+        return [((h, w, grid(h, w, "..", corners(h, w, [">1", "<?", "v0", "^2", "<1", ">?"]))), {}),
+                ((h, w, grid(h, w, "..", {(0, 0): "v?", (h - 1, w - 1): "^0"})), {})]
+    if name == "magnets":
+        if w % 2 == 0:
+            to_right, to_down = [[x % 2 == 0 for x in range(w)] for _ in range(h)], [[False] * w for _ in range(h)]
+        else:
+            to_right, to_down = [[False] * w for _ in range(h)], [[y % 2 == 0 for _ in range(w)] for y in range(h)]
+        return [((h, w, to_right, to_down, [[y % 2, -1] for y in range(h)], [[-1, x % 2] for x in range(w)]), {}),
+                ((h, w, to_right, to_down, [[-1, 0] for _ in range(h)], [[1, -1] for _ in range(w)]), {})]
+    if name == "nanro":
+        return [((h, w, R, grid(h, w, 0, corners(h, w, [1, 2, 0, 1]))), {})]
+    if name == "nurimaze":
+        return [((h, w, [[(x + y) % 2 for x in range(w - 1)] for y in range(h)], [[(x + y + 1) % 2 for x in range(w)] for y in range(h - 1)],
+                  grid(h, w, 0, {(0, w - 1): 1, (h - 1, 0): 2}), (0, 0), (h - 1, w - 1)), {}),
+                ((h, w, [[1] * (w - 1) for _ in range(h)], [[1] * w for _ in range(h - 1)], grid(h, w, 0, {}), (h - 1, 0), (0, w - 1)), {})]
+    if name == "slalom":
+        return [((h, w, (0, 0), grid(h, w, False, {(h - 1, w - 1): True}), [(0, w - 1, 1, 2, 1), (h - 1, 0, 0, 2, 0)]), {}),
+                ((h, w, (h - 1, w - 1), grid(h, w, False, {(0, 0): True}), [(0, w - 1, 1, h - 1, 0)]), {})]
     raise AnalysisError(f"no fixture recipe for solve_{name}")
 
 
@@ -315,7 +337,8 @@ def run(repo: Repo, rep: Report) -> None:
     missing = [n for n in ANCHORED if n not in names]
     if missing:
         raise AnalysisError(f"anchored solver modules vanished: {missing}")
-    jobs = [(repo.root, repo.overrides, n) for n in ANCHORED]
+    extra = [n for n in EXTRA if n in names]
+    jobs = [(repo.root, repo.overrides, n) for n in ANCHORED + extra]
     with ProcessPoolExecutor(max_workers=16) as ex:
         results = list(ex.map(_job, jobs))
     for (root, ov, name), (st, items, n) in zip(jobs, results):
@@ -338,6 +361,7 @@ def run(repo: Repo, rep: Report) -> None:
     from . import pzx
 
     pzx.run(repo, rep)
-    rep.info("modules outside the property's anchor list (firefly, magnets, nanro, nurimaze, slalom) are not evaluated")
+    rep.info(f"solver modules outside the property's anchor list, evaluated by the same rules: {extra}; "
+             f"not evaluated (no fixture recipe): {sorted(n for n in names if n not in ANCHORED and n not in extra)}")
     rep.assume("instances: 2x3, 3x2, 3x4, 4x3 boards with clues in all corners and on the last row/column, zero-valued clues included; "
                "for the solvers outside PZ-X the rules themselves (what is constrained) are not compared with the published puzzle rules")
